@@ -30,6 +30,11 @@ TRUSTED = [
     "are counted as skipped ('neg-length'); decoder runs exceeding the read budget (greedy loop over an entry that consumes "
     "nothing) are counted as 'hang' and skipped",
     "enum tables: IntFlag classes are generated with distinct single-bit members only (iter(flag_cls) yields exactly those)",
+    "ParseContext: none of the modelled combinators reads its context; the interpreters thread a context (the enclosing dict for "
+    "Template members, empty for sequence members) and the theorems hold for arbitrary contexts on both sides",
+    "while decoding, the harness substitutes serialization.BufferReader by a counting subclass (read budget, detection of negative "
+    "byte counts), also for the inner readers of TypedBytes; observation points are BufferWriter.copy_buffer(), the value returned "
+    "by Reader.read and len(reader) afterwards, spec.calc_size()",
 ]
 
 READ_BUDGET = 20000
@@ -312,6 +317,7 @@ def correspond(ctx):
              % ctx.pick(3, 5))
     rng = ctx.rng
     lines, expect = [], []       # expect[i] = (what, impl_observation, case-info)
+    de_lines = []                # (index of the ser line it depends on | None, line, expectation): second driver pass
     dist = {}
     seen_specs = set()
     n_specs = 0
@@ -401,7 +407,9 @@ def correspond(ctx):
                 vsx = None
             info = {"spec": sx, "e": e, "pod": int(pod), "value": vsx}
             b = impl_ser(obj, v, e)
+            ser_idx = None
             if vsx is not None and "nan" not in vsx:
+                ser_idx = len(lines)
                 lines.append(f"ser {e} {sx} {vsx}")
                 expect.append(("ser", "ERR" if isinstance(b, str) else "OK " + S.hb(b), info))
                 if iswf and dompred:
@@ -443,12 +451,24 @@ def correspond(ctx):
                 else:
                     obs = "ERR"
                     bump("de:error")
-                lines.append(f"de {e} {int(pod)} {sx} {S.hb(data)}")
-                expect.append(("de", obs, dict(info, data=S.hb(data))))
+                if risky and ser_idx is None:
+                    continue
+                # a spec whose entries may decode from nothing spins on a huge count: its decode cases are only
+                # run when the model agrees on the encoding (then the counts are the small ones that were written)
+                de_lines.append((ser_idx if risky else None, f"de {e} {int(pod)} {sx} {S.hb(data)}",
+                                 ("de", obs, dict(info, data=S.hb(data)))))
                 if composite:
                     nontriv.add(("de", sx, e, pod, data))
 
     model = ctx.run_driver(lines, timeout=900)
+    n1 = len(lines)
+    for dep, line, ex in de_lines:
+        if dep is not None and model[dep].strip() != expect[dep][1]:
+            bump("de:skipped(spin-risk spec, encodings differ)")
+            continue
+        lines.append(line)
+        expect.append(ex)
+    model += ctx.run_driver(lines[n1:], timeout=900) if len(lines) > n1 else []
     for (what, obs, info), m in zip(expect, model):
         m = m.strip()
         same = (m == obs)
